@@ -1,6 +1,6 @@
 (* C01/Proofs.v — algebra of the coupled Newton iteration in a commutative ring, honesty of the
    reported error, retry-loop bookkeeping, Rayleigh quotient bound. *)
-From Coq Require Import QArith Qminmax ZArith NArith List Ring Lia Lqa.
+From Coq Require Import QArith Qminmax Qround ZArith NArith List Ring Lia Lqa.
 From Precond Require Import Base.QMat C01.Model.
 Import ListNotations.
 Open Scope Q_scope.
@@ -248,3 +248,19 @@ Section EighResidual.
     rewrite distr_l, mul_1_r. rewrite distr_r. rewrite HUUt. rewrite !mul_assoc. reflexivity.
   Qed.
 End EighResidual.
+
+(* ---------- non-vacuity: the loop invariant is satisfiable (ring Z, scalars floored) ---------- *)
+Example inv_satisfiable :
+  inv Z 1%Z Z.mul (fun x => inject_Z (Z.abs (x - 1))) 1 3%Z
+      (mkn Z 0 6%Z 2%Z 2%Z (inject_Z 5) 1).
+Proof.
+  unfold inv. cbn [n_H n_M n_err n_Hold n_ratio rpow]. split; [reflexivity|]. split; [reflexivity|].
+  left. split; reflexivity.
+Qed.
+
+Example honest_on_example :
+  let s := inner Z 1%Z Z.add Z.mul (fun q => Qfloor q) (fun x => inject_Z (Z.abs (x - 1)))
+                 3 100 (1 # 1000000) 1 (- (1)) (mkn Z 0 6%Z 2%Z 2%Z (inject_Z 5) 1) in
+  let '(X, reported) := attempt_result Z (fun x => inject_Z (Z.abs (x - 1))) s in
+  inject_Z (Z.abs (X * 3 - 1)) <= reported.
+Proof. vm_compute. discriminate. Qed.
